@@ -143,25 +143,25 @@ Proof. unfold scan_step. destruct co as [c o]. simpl. intros H F. rewrite F in H
 (* ---- tree scan ---------------------------------------------------------------------------- *)
 Definition subof (base g : grid) : Prop := sub (all_ops g) (all_ops base).
 
-Lemma tree_expand_sub nc base co : forall all r,
-  tree_expand nc all co = Ok r -> Forall (subof base) all -> Forall (subof base) r.
+Lemma tree_expand_sub comp nc base co : forall all r,
+  tree_expand comp nc all co = Ok r -> Forall (subof base) all -> Forall (subof base) r.
 Proof.
   induction all as [|circ rest IH]; intros r H F; simpl in H.
   - inversion H. constructor.
   - destruct co as [c o].
     destruct (pop circ _ (first_qudit o)) as [[x work]|] eqn:P; [|discriminate].
-    destruct (tree_expand nc rest (c, o)) as [r'|] eqn:E; [|discriminate].
+    destruct (tree_expand comp nc rest (c, o)) as [r'|] eqn:E; [|discriminate].
     inversion H; subst. inversion F; subst.
     constructor; [|constructor; auto].
     unfold subof in *. eapply sub_trans; [eapply pop_sub; eauto | assumption].
 Qed.
 
-Lemma tree_circs_aux_sub nc base chunk : forall all r,
-  tree_circs_aux nc all chunk = Ok r -> Forall (subof base) all -> Forall (subof base) r.
+Lemma tree_circs_aux_sub comp nc base chunk : forall all r,
+  tree_circs_aux comp nc all chunk = Ok r -> Forall (subof base) all -> Forall (subof base) r.
 Proof.
   induction chunk as [|co chunk IH]; intros all r H F; simpl in H.
   - inversion H; subst. exact F.
-  - destruct (tree_expand nc all co) as [a|] eqn:E; [|discriminate].
+  - destruct (tree_expand comp nc all co) as [a|] eqn:E; [|discriminate].
     eapply IH; eauto. eapply tree_expand_sub; eauto.
 Qed.
 
@@ -184,10 +184,10 @@ Proof.
   intros [H|H]; auto.
 Qed.
 
-Lemma tree_circs_sub nc base chunk cands :
-  tree_circs nc base chunk = Ok cands -> forall g, In g cands -> subof base g.
+Lemma tree_circs_sub comp nc base chunk cands :
+  tree_circs comp nc base chunk = Ok cands -> forall g, In g cands -> subof base g.
 Proof.
-  unfold tree_circs. destruct (tree_circs_aux nc [base] chunk) as [a|] eqn:E; [|discriminate].
+  unfold tree_circs. destruct (tree_circs_aux comp nc [base] chunk) as [a|] eqn:E; [|discriminate].
   intros H g Hg. inversion H; subst.
   apply removelast_In, sort_by_ops_In in Hg.
   assert (F : Forall (subof base) a).
@@ -205,14 +205,14 @@ Proof.
   - destruct (IH _ _ _ H) as (I & C & L). simpl. split; [auto|]. split; [exact C | lia].
 Qed.
 
-Lemma tree_loop_inv nc orig chs : forall s s',
-  tree_loop cost thr nc chs s = Ok s' ->
+Lemma tree_loop_inv comp nc orig chs : forall s s',
+  tree_loop cost thr comp nc chs s = Ok s' ->
   accepted orig s -> shrunk orig s -> s_ver s <= s_calls s ->
   accepted orig s' /\ shrunk orig s'.
 Proof.
   induction chs as [|ch chs IH]; intros s s' H A B V; simpl in H.
   - inversion H; subst. auto.
-  - destruct (tree_circs nc (s_grid s) ch) as [cands|] eqn:T; [|discriminate].
+  - destruct (tree_circs comp nc (s_grid s) ch) as [cands|] eqn:T; [|discriminate].
     destruct (first_success cost thr (s_calls s) cands) as [[c v]|] eqn:F.
     + destruct (first_success_spec _ _ _ _ F) as (I & C & L).
       apply (IH _ _ H); simpl; try lia.
@@ -222,13 +222,13 @@ Proof.
       destruct A as [[A1 A2]|[A1 A2]]; [left; auto | right; simpl; split; [lia|exact A2]].
 Qed.
 
-Theorem treescan_invariant d orig its s :
-  treescan cost thr d orig its = Ok s ->
+Theorem treescan_invariant comp d orig its s :
+  treescan cost thr comp d orig its = Ok s ->
   ((s_grid s = orig /\ s_ver s = 0) \/ (1 <= s_ver s /\ (cost (s_ver s) (s_grid s) < thr)%Z))
   /\ sub (all_ops (s_grid s)) (all_ops orig) /\ num_ops (s_grid s) <= num_ops orig.
 Proof.
   intros H. unfold treescan in H.
-  destruct (tree_loop_inv _ orig _ _ _ H) as (A & B).
+  destruct (tree_loop_inv _ _ orig _ _ _ H) as (A & B).
   - left. auto.
   - apply sub_refl.
   - simpl. lia.
